@@ -12,7 +12,9 @@ from . import formula as F
 from .values import enc
 
 PROBE = 'ZZ77+SUM(ZY1:ZZ2)+TRUE+ABS(1)'
-SETPOOL = [[], [None], [0], [False], [''], [5], [5, None], [None, 0], [5, 0], ['', False, None], [[1, 2]], [2.5]]
+ERRV = lambda c: {'t': 'err', 'c': c}       # an error value handed to the setter is the value of the reference, like any other
+SETPOOL = [[], [None], [0], [False], [''], [5], [5, None], [None, 0], [5, 0], ['', False, None], [[1, 2]], [2.5],
+           [ERRV('#DIV/0!')], [ERRV('#N/A')], [3, ERRV('#VALUE!')], [ERRV('#REF!'), None]]
 
 
 def may_be_array(n, env):
@@ -111,7 +113,7 @@ def rand_tree(rng, depth=0):
     if k < 0.75:
         return F.neg(F.paren(rand_tree(rng, depth + 1)))
     if k < 0.9:
-        return F.call(rng.choice(['REC', 'REC', 'SUM', 'COUNT']),
+        return F.call(rng.choice(['REC', 'REC', 'SUM', 'COUNT', 'ISERROR', 'IFERROR', 'ISNA']),
                       *[rand_tree(rng, depth + 1) for _ in range(rng.randint(0, 3))])
     return F.arr(*[rand_tree(rng, depth + 1) for _ in range(rng.randint(1, 3))])
 
@@ -136,7 +138,7 @@ def rand_case(rng):
     env['funcs'] = {'REC': {'mode': 'const', 'v': enc(7), 'i': 0}}
     for r in refs_of(ast, []):
         if rng.random() < 0.6:
-            vals = [enc(v) for v in rng.choice(SETPOOL)]
+            vals = [v if isinstance(v, dict) else enc(v) for v in rng.choice(SETPOOL)]
             if r['k'] == 'cell':
                 env['cellsets'].append({'key': F.cps(F.plain_key(F.S(r['s']))), 'vals': vals})
             elif r['k'] == 'var':
@@ -144,7 +146,7 @@ def rand_case(rng):
             # range keys are normalised by the spec; the listener keys ranges by what it receives,
             # so random range setters are attached through the written corners when already normalised
     if rng.random() < 0.3:
-        env['fnsets'].append({'key': 'REC', 'vals': [enc(v) for v in rng.choice(SETPOOL)]})
+        env['fnsets'].append({'key': 'REC', 'vals': [v if isinstance(v, dict) else enc(v) for v in rng.choice(SETPOOL)]})
     return {'ast': ast, 'env': env}
 
 
